@@ -224,7 +224,7 @@ UJClass(c, trigger, j, f, balErr) ==
     ELSE IF pin # <<>> /\ trigger # pin[1] /\ InSubtreeOf(c, pin[1], trigger) # <<FALSE, TRUE>> THEN "refused"
     ELSE IF j.epoch < f.epoch THEN "refused"
     ELSE IF fin # f /\ (InSubtreeOf(c, fin.root, f.root) # <<FALSE, TRUE>> \/ fin.epoch > f.epoch) THEN "refused"
-    ELSE IF just # j /\ (InSubtreeOf(c, fin.root, j.root) # <<FALSE, TRUE>> \/ fin.epoch > j.epoch) THEN "refused"
+    ELSE IF just # j /\ (InSubtreeOf(c, f.root, j.root) # <<FALSE, TRUE>> \/ fin.epoch > j.epoch) THEN "refused"
     ELSE IF balErr THEN "refused"
     ELSE "updated"
 
